@@ -103,7 +103,8 @@ inline Simplex random_subset(vh::Rng& r, const std::vector<long>& uni, int maxsi
 
 // Generates a precondition-respecting history from the model alone.
 //  contiguous: vertex set is {0..n-1} at all times (precondition of Options::contiguous_vertices)
-inline History generate_history(vh::Rng& r, bool contiguous, int nops_max = 40, bool allow_prune_f = true, bool small_labels = false) {
+inline History generate_history(vh::Rng& r, bool contiguous, int nops_max = 40, bool allow_prune_f = true, bool small_labels = false,
+                                const ComplexModel* init = nullptr, const std::vector<long>* fixed_universe = nullptr, int nops_min = 1) {
   static const std::vector<std::vector<long>> universes = {
       {0, 1, 2, 3, 4, 5, 6}, {-9, -2, 0, 3, 40, 1000000, 1073741824}, {10, 11, 12, 13, 14, 15, 16}, {-32000, -5, -1 + 0 * 1, 7, 8, 300, 32000}};
   History h;
@@ -114,8 +115,10 @@ inline History generate_history(vh::Rng& r, bool contiguous, int nops_max = 40, 
   if (!contiguous && ui == 3) h.universe[2] = -3;  // -1 is null_vertex(): never a real label
   int m = 3 + (int)r.below(5);
   h.universe.resize(m);
+  if (fixed_universe) { h.universe = *fixed_universe; m = (int)h.universe.size(); }
   ComplexModel M;
-  int nops = 1 + (int)r.below(nops_max);
+  if (init) M = *init;
+  int nops = nops_min + (int)r.below(nops_max - nops_min + 1);
   std::set<Simplex> removed_once;
   auto vertex_ok = [&](const Simplex& s) {
     if (!contiguous) return true;
